@@ -404,7 +404,8 @@ def eval_rekey(case):
     """whole-graph update of GraphID (what rollback() of a combined model does with a snapshot): afterwards the content is found
     under the new id and nothing under the old one, on both backends; onto an id in use the per-graph backend may refuse
     (RuntimeError, as for merging) and must then leave both graphs as they were; the graph goes on working under the new id"""
-    shape, target_in_use = case
+    shape, target_in_use = case[0], case[1]
+    handle = case[2] if len(case) > 2 else 'ctor'
     v = []
     seen = {}
     for fl, imp, cls in (('shared', world.shared_importer, NetworkXPropertyGraph), ('disjoint', world.disjoint_importer, NetworkXPropertyGraphDisjoint)):
@@ -420,6 +421,11 @@ def eval_rekey(case):
             k = cls(graph_id='K', importer=imp)
             k.add_node(node_id='z', label='NetworkNode', props={'Name': 'z', 'Type': 'VM'})
         before = (_observe(cls, imp, 'G'), _observe(cls, imp, 'K'))
+        if handle == 'cast':
+            # the handle the importer itself hands out for a stored graph (what rollback() of a combined model works through)
+            g = imp.cast_graph(graph_id='G')
+            if type(g) is not cls:
+                v.append((f'rekey/cast-handle-of-another-backend/{fl}', f'cast_graph returned a {type(g).__name__}'))
         try:
             g.update_nodes_property(prop_name='GraphID', prop_val='K')
             out = 'ok'
@@ -461,8 +467,8 @@ def run(report):
             rule='histories of property-graph operations on graph G (ids a,b,c; classes NetworkNode/Link; relations has/connects) '
                  'next to a resident graph H with the same ids; state = reference-model canonical state; each transition executes '
                  'the call on both backends and the model and compares results, raises, snapshots and ~40 query answers')
-    explore_cases(report, 'rekey', eval_rekey, [(sh, t) for sh in REKEY_SHAPES for t in (False, True)], chunk=1,
-                  rule='whole-graph update of GraphID on 4 graph shapes x target id free / in use x both backends: content found under '
+    explore_cases(report, 'rekey', eval_rekey, [(sh, t, h) for sh in REKEY_SHAPES for t in (False, True) for h in ('ctor', 'cast')], chunk=1,
+                  rule='whole-graph update of GraphID on 4 graph shapes x target id free / in use x handle (constructed | cast_graph) x both backends: content found under '
                        'the new id only, connections kept, next node allocated safely; the per-graph backend may refuse an id in use')
     for k in ('add_node:ok', 'add_node:raise', 'merge:ok', 'unset:raise', 'unset:ok', 'upd_link:ok', 'upd_link:raise',
               'delete_graph:ok', 'unset:either'):
